@@ -43,10 +43,10 @@ def run(ctx):
         ctx.guard("C11", "panic-pure", lambda: validate.panic_purity(ctx, prog))
         ctx.guard("C11", "rle-validator", lambda: rle.validator_refusals(ctx, prog))
         ctx.guard("C11", "full-eq", lambda: eqord.full_eq(ctx, prog))
-        ctx.guard("C11", "summaries", lambda: summary.check(ctx, prog, r'internals::(hash|hash_dual|compare)::(?!.*(Windows|compare_easy))', floor=50))
-        ctx.guard("C11", "path summaries", lambda: summary.check_paths(ctx, prog, r'internals::(hash|hash_dual|compare)::(?!.*(Windows|compare_easy))', floor=39))
         ctx.guard("C11", "traits", lambda: vis.trait_census(ctx, prog, scope=None))
         ctx.guard("C11", "casts", lambda: casts.census(ctx, prog, scope=None, floor=15))
+        ctx.guard("C11", "summaries", lambda: summary.check(ctx, prog, r'internals::(hash|hash_dual|compare)::(?!.*(Windows|compare_easy))', floor=50))
+        ctx.guard("C11", "path summaries", lambda: summary.check_paths(ctx, prog, r'internals::(hash|hash_dual|compare)::(?!.*(Windows|compare_easy))', floor=39))
     if ctx.tier == "thorough":
         ctx.cfg = "witness"
         ctx.guard("C11", "witness", lambda: witness.run(ctx, "witness", ["W1", "W2", "W3", "W4", "W6", "W7", "W8"]))
